@@ -266,9 +266,12 @@ class Range(Kind):
     def plan(self, rng, pool):
         a, w = pool.any()
         lo = rng.randrange(w)
+        wider = rng.random() < 0.15
+        if wider and rng.random() < 0.5:
+            lo = 0
         hi = rng.randint(lo, w - 1)
         # the extracted range is right-aligned in the result, which may be wider than the range
-        return {'high': hi, 'low': lo}, [a], [hi - lo + 1 + (rng.choice([1, 2, 5]) if rng.random() < 0.15 else 0)]
+        return {'high': hi, 'low': lo}, [a], [hi - lo + 1 + (rng.choice([1, 2, 5]) if wider else 0)]
 
     def build(self, parent, nm, ins, outs, p):
         return py4hw.Range(parent, nm, ins[0], p['high'], p['low'], outs[0])
@@ -379,8 +382,10 @@ class Constant(Kind):
 
     def plan(self, rng, pool):
         w = rand_width(rng)
-        v = rng.choice([0, 1, (1 << w) - 1, 1 << (w - 1), rng.getrandbits(w)])
-        return {'value': M(v, w)}, [], [w]
+        v = M(rng.choice([0, 1, (1 << w) - 1, 1 << (w - 1), rng.getrandbits(w)]), w)
+        if rng.random() < 0.12:
+            v = rng.choice([-1, -rng.randint(1, 1 << min(w, 20)), (1 << w) + rng.randint(0, 9)])   # legal: the wire keeps the low bits
+        return {'value': v}, [], [w]
 
     def build(self, parent, nm, ins, outs, p):
         return py4hw.Constant(parent, nm, p['value'], outs[0])
@@ -935,6 +940,8 @@ class ZeroExtend(Kind):
 
     def plan(self, rng, pool):
         a, w = pool.any(1, 60)
+        if w > 1 and rng.random() < 0.06:
+            return {}, [a], [rng.randint(1, w - 1)]      # narrower result: accepted by the constructor, keeps the low bits
         return {}, [a], [w + rng.choice([0, 1, 1, 2, 7, 10])]
 
     def build(self, parent, nm, ins, outs, p):
